@@ -208,6 +208,13 @@ FDo(s, a) ==
     [] a.op = "setcap" -> FInst([s EXCEPT !.cap = a.c], Trimmed(s.order, s.val, s.sz, s.size, a.c))
     [] OTHER -> s
 FAgrees == [][FSt' = FDo(FSt, last')]_allvars
+(* no method looks at the eviction counter: started with another count, it does the same and adds *)
+(* the same number (LRU_Trace skips whole periods of a periodic run on the strength of this)      *)
+EvictFree == [][LET a == last' IN \A x \in {0, 5} :
+                  LET t1 == FDo([FSt EXCEPT !.evict = x], a)
+                      t0 == FDo(FSt, a)
+                  IN [t1 EXCEPT !.evict = 0] = [t0 EXCEPT !.evict = 0] /\ t1.evict - x = t0.evict - evict
+               ]_allvars
 
 View == <<order, val, sz, size, cap, sized>>
 =============================================================================
